@@ -645,7 +645,7 @@ fn kf_xls_reference_tokens_render_their_dollar_flags() {
     let mut wb: Xls<_> = Xls::new(Cursor::new(cfb_with_workbook(&stream))).unwrap();
     let f = wb.worksheet_formula("Sheet1").unwrap();
     let got: Vec<String> = (0..7).map(|r| f.get_value((r, 0)).cloned().unwrap_or_default()).collect();
-    // column lettering beyond Z is a separate (value-level) defect of push_column: row 2 only checks the flags
+    // column lettering beyond Z: see kf_column_letters_beyond_z
     assert_eq!(got[0], "$A1");
     assert_eq!(got[1], "A$1");
     assert!(!got[2].contains('$') && got[2].ends_with('5'), "{}", got[2]);
@@ -681,6 +681,70 @@ fn kf_xlsb_reference_tokens_render_their_dollar_flags() {
     assert_eq!(f.get_value((2, 3)), Some(&"$A1".to_string()));
     assert_eq!(f.get_value((2, 4)), Some(&"A$1".to_string()));
     assert_eq!(f.get_value((2, 5)), Some(&"A1:B2".to_string()));
+}
+
+#[test]
+fn kf_column_letters_beyond_z() {
+    // xls: PtgRef (0x44) row 0, relative, columns 25, 26, 27, 51, 52, 255
+    let cols: [(u8, &str); 6] = [(25, "Z1"), (26, "AA1"), (27, "AB1"), (51, "AZ1"), (52, "BA1"), (255, "IV1")];
+    let recs: Vec<(u16, Vec<u8>)> = cols.iter().enumerate().map(|(i, (c, _))| formula_rec_rgce(i as u16, 0, &[0x44, 0, 0, *c, 0xC0])).collect();
+    let stream = workbook_stream(&[], &[0], &recs);
+    let mut wb: Xls<_> = Xls::new(Cursor::new(cfb_with_workbook(&stream))).unwrap();
+    let f = wb.worksheet_formula("Sheet1").unwrap();
+    for (i, (_, want)) in cols.iter().enumerate() {
+        assert_eq!(f.get_value((i as u32, 0)).map(|s| s.as_str()), Some(*want), "xls column letters");
+    }
+    // xlsb: PtgRef with 14-bit columns 701 (ZZ), 702 (AAA), 16383 (XFD)
+    let src = fixture("date.xlsb");
+    let mut recs = xlsb_records(&member(&src, "xl/worksheets/sheet1.bin"));
+    let end = recs.iter().position(|r| r.0 == 0x92).unwrap();
+    let fmla = |col: u32, c: u16| {
+        let mut p = Vec::new();
+        p.extend_from_slice(&col.to_le_bytes());
+        p.extend_from_slice(&0u32.to_le_bytes());
+        p.extend_from_slice(&1.0f64.to_le_bytes());
+        p.extend_from_slice(&0u16.to_le_bytes());
+        let c = (c | 0xC000).to_le_bytes();
+        let rgce = [0x44u8, 0, 0, 0, 0, c[0], c[1]];
+        p.extend_from_slice(&(rgce.len() as u32).to_le_bytes());
+        p.extend_from_slice(&rgce);
+        p.extend_from_slice(&0u32.to_le_bytes());
+        (0x0009u16, p)
+    };
+    recs.insert(end, fmla(5, 16383));
+    recs.insert(end, fmla(4, 702));
+    recs.insert(end, fmla(3, 701));
+    let bytes = rezip(&src, &[("xl/worksheets/sheet1.bin", xlsb_bytes(&recs))]);
+    let mut wb: Xlsb<_> = Xlsb::new(Cursor::new(bytes)).unwrap();
+    let name = wb.sheet_names()[0].clone();
+    let f = wb.worksheet_formula(&name).unwrap();
+    assert_eq!(f.get_value((2, 3)), Some(&"ZZ1".to_string()));
+    assert_eq!(f.get_value((2, 4)), Some(&"AAA1".to_string()));
+    assert_eq!(f.get_value((2, 5)), Some(&"XFD1".to_string()));
+}
+
+#[test]
+fn kf_xls_3d_area_tokens_go_through_extern_sheet() {
+    // ExternSheet: XTI 0 points at a sheet index that does not exist, XTI 1 at sheet 0
+    let mut xti = 2u16.to_le_bytes().to_vec();
+    xti.extend_from_slice(&[0, 0, 5, 0, 5, 0]);
+    xti.extend_from_slice(&[0, 0, 0, 0, 0, 0]);
+    let recs = vec![
+        formula_rec_rgce(0, 0, &[0x5A, 1, 0, 0, 0, 0x01, 0xC0]),                   // PtgRef3d   ixti 1 -> Sheet1!B1
+        formula_rec_rgce(1, 0, &[0x5B, 1, 0, 0, 0, 1, 0, 0x00, 0xC0, 0x01, 0xC0]), // PtgArea3d  ixti 1 -> Sheet1!A1:B2
+        formula_rec_rgce(2, 0, &[0x5C, 1, 0, 0, 0, 0, 0]),                         // PtgRefErr3d
+        formula_rec_rgce(3, 0, &[0x5D, 1, 0, 0, 0, 0, 0, 0, 0, 0, 0]),             // PtgAreaErr3d
+        formula_rec_rgce(4, 0, &[0x5B, 0, 0, 0, 0, 1, 0, 0x00, 0xC0, 0x01, 0xC0]), // PtgArea3d  ixti 0 -> no such sheet
+    ];
+    let stream = workbook_stream(&[(0x0017, xti)], &[0], &recs);
+    let mut wb: Xls<_> = Xls::new(Cursor::new(cfb_with_workbook(&stream))).unwrap();
+    let f = wb.worksheet_formula("Sheet1").unwrap();
+    let got: Vec<String> = (0..5).map(|r| f.get_value((r, 0)).cloned().unwrap_or_default()).collect();
+    assert_eq!(got[0], "Sheet1!B1");
+    assert_eq!(got[1], "Sheet1!A1:B2", "PtgArea3d must resolve its ixti through the ExternSheet table like PtgRef3d");
+    assert_eq!(got[2], "Sheet1!#REF!");
+    assert_eq!(got[3], "Sheet1!#REF!");
+    assert_eq!(got[4], "#REF!A1:B2");
 }
 
 // C10 / R-FMT-SCAN
